@@ -595,6 +595,213 @@ def suite_C16():
     return '', cases
 
 
+def nlit(v):
+    """Python value -> Noulith literal (ints, strings, None, lists; tuples are written as lists)"""
+    if v is None:
+        return 'null'
+    if isinstance(v, bool):
+        return '1' if v else '0'
+    if isinstance(v, int):
+        return lit(v)
+    if isinstance(v, str):
+        return '"%s"' % v
+    if isinstance(v, (list, tuple)):
+        return '[%s]' % ', '.join(nlit(x) for x in v)
+    raise ValueError(v)
+
+
+def suite_C13():
+    """bound: every listed sequence function on lists of length 0..6 with repeats (ints and strings), plus string / vector / bytes /
+    stream / dict-key inputs for the kind-preserving ones; predicates from {>1, even, always, never}, keys from {negate, mod 3}, small
+    numeric parameters 0..len+2. Expected values come from straightforward Python definitions; the comparison `==` is done by the
+    interpreter, so a change of result kind (list vs string vs stream) is a mismatch too."""
+    import itertools as it
+    cases = []
+    k = [0]
+
+    def add(expr, expected, **meta):
+        cases.append(('q%d' % k[0], '(%s) == %s' % (expr, expected), '1', dict(meta, expr=expr, expected_value=expected)))
+        k[0] += 1
+
+    def add_raw(expr, expected, **meta):
+        cases.append(('w%d' % k[0], expr, expected, dict(meta, expr=expr)))
+        k[0] += 1
+    lists = [[], [5], [3, 1, 2, 3], [1, 1, 2, 2, 2, 1], [4, -2, 0, 7, 7, 1]]
+    preds = [('(>1)', lambda x: x > 1), ('(\\x -> x % 2 == 0)', lambda x: x % 2 == 0), ('(\\x -> 1)', lambda x: True), ('(\\x -> 0)', lambda x: False)]
+    keys = [('(\\x -> 0 - x)', lambda x: -x), ('(\\x -> x %% 3)', lambda x: x % 3)]
+    for xs in lists:
+        L = nlit(xs)
+        for pn, pf in preds:
+            add('%s filter %s' % (L, pn), nlit([x for x in xs if pf(x)]), what='filter')
+            add('%s reject %s' % (L, pn), nlit([x for x in xs if not pf(x)]), what='reject')
+            add('%s partition %s' % (L, pn), nlit([[x for x in xs if pf(x)], [x for x in xs if not pf(x)]]), what='partition')
+            add('%s count %s' % (L, pn), nlit(sum(1 for x in xs if pf(x))), what='count')
+            add('%s any %s' % (L, pn), nlit(any(pf(x) for x in xs)), what='any')
+            add('%s all %s' % (L, pn), nlit(all(pf(x) for x in xs)), what='all')
+            hit = [x for x in xs if pf(x)]
+            add('%s find? %s' % (L, pn), nlit(hit[0] if hit else None), what='find?')
+            idx = [i for i, x in enumerate(xs) if pf(x)]
+            add('%s locate? %s' % (L, pn), nlit(idx[0] if idx else None), what='locate?')
+            tw = list(it.takewhile(pf, xs))
+            add('%s take %s' % (L, pn), nlit(tw), what='take (predicate)')
+            add('%s drop %s' % (L, pn), nlit(xs[len(tw):]), what='drop (predicate)')
+            grp = []
+        add('%s map (*2)' % L, nlit([x * 2 for x in xs]), what='map')
+        add('%s flat_map (\\x -> [x, x + 1])' % L, nlit([y for x in xs for y in (x, x + 1)]), what='flat_map')
+        add('enumerate(%s)' % L, nlit([[i, x] for i, x in enumerate(xs)]), what='enumerate')
+        add('reverse(%s)' % L, nlit(xs[::-1]), what='reverse')
+        add('sort(%s)' % L, nlit(sorted(xs)), what='sort')
+        add('%s sort (\\a, b -> b - a)' % L, nlit(sorted(xs, reverse=True)), what='sort by comparator')
+        for kn, kf in keys:
+            add('%s sort_on %s' % (L, kn), nlit(sorted(xs, key=kf)), what='sort_on (stable)')
+            d = {}
+            for x in xs:
+                d.setdefault(kf(x), []).append(x)
+            add('sort(%s group_all %s)' % (L, kn), nlit(sorted(d.values())), what='group_all')
+        u = []
+        for x in xs:
+            if x not in u:
+                u.append(x)
+        add('unique(%s)' % L, nlit(u), what='unique')
+        add('group(%s)' % L, nlit([list(g) for _, g in it.groupby(xs)]), what='group (runs of equal)')
+        runs = []
+        for x in xs:
+            if runs and runs[-1][-1] < x:
+                runs[-1].append(x)
+            else:
+                runs.append([x])
+        add('%s group (<)' % L, nlit(runs), what='group by relation')
+        for n in range(0, len(xs) + 3):
+            add('%s take %d' % (L, n), nlit(xs[:n]), what='take', n=n)
+            add('%s drop %d' % (L, n), nlit(xs[n:]), what='drop', n=n)
+            if n >= 1:
+                add('%s group %d' % (L, n), nlit([xs[i:i + n] for i in range(0, len(xs), n)]), what='group n', n=n)
+                if len(xs) % n == 0:
+                    add("%s group' %d" % (L, n), nlit([xs[i:i + n] for i in range(0, len(xs), n)]), what="group' n", n=n)
+                else:
+                    add_raw("%s group' %d" % (L, n), 'ERR', what="group' with leftover must raise", n=n)
+                add('%s window %d' % (L, n), nlit([xs[i:i + n] for i in range(0, len(xs) - n + 1)]), what='window', n=n)
+            else:
+                add_raw('%s group 0' % L, 'ERR', what='group 0 must raise')
+        add('prefixes(%s)' % L, nlit([xs[:i] for i in range(len(xs) + 1)]), what='prefixes')
+        add('suffixes(%s)' % L, nlit([xs[len(xs) - i:] for i in range(len(xs) + 1)]), what='suffixes')
+        fr = {}
+        for x in xs:
+            fr[x] = fr.get(x, 0) + 1
+        add('sort(items(frequencies(%s)))' % L, nlit(sorted([kk, v] for kk, v in fr.items())), what='frequencies')
+        add('%s pairwise +' % L, nlit([a + b for a, b in zip(xs, xs[1:])]), what='pairwise')
+        add('%s fold + from 100' % L, nlit(100 + sum(xs)), what='fold from')
+        sc = [100]
+        for x in xs:
+            sc.append(sc[-1] + x)
+        add('%s scan + from 100' % L, nlit(sc), what='scan from')
+        if xs:
+            add('%s fold max' % L, nlit(max(xs)), what='fold')
+            sc2 = [xs[0]]
+            for x in xs[1:]:
+                sc2.append(sc2[-1] + x)
+            add('%s scan +' % L, nlit(sc2), what='scan')
+            add('min(%s)' % L, nlit(min(xs)), what='min')
+            add('max(%s)' % L, nlit(max(xs)), what='max')
+        else:
+            add_raw('[] fold +', 'ERR', what='fold of nothing must raise')
+            add_raw('min([])', 'ERR', what='min of nothing must raise')
+        add('sum(%s)' % L, nlit(sum(xs)), what='sum')
+        pr = 1
+        for x in xs:
+            pr *= x
+        add('product(%s)' % L, nlit(pr), what='product')
+        for ys in [[], [10, 20], [10, 20, 30, 40, 50, 60, 70]]:
+            M = nlit(ys)
+            add('%s zip %s' % (L, M), nlit([[a, b] for a, b in zip(xs, ys)]), what='zip')
+            add('zip(%s, %s, +)' % (L, M), nlit([a + b for a, b in zip(xs, ys)]), what='zip with')
+            zl = []
+            for i in range(max(len(xs), len(ys))):
+                zl.append(([xs[i]] if i < len(xs) else []) + ([ys[i]] if i < len(ys) else []))
+            add('%s ziplongest %s' % (L, M), nlit(zl), what='ziplongest')
+            add('%s ++ %s' % (L, M), nlit(xs + ys), what='++')
+            if len(xs) <= 4 and len(ys) <= 2:
+                add('%s ** %s' % (L, M), nlit([[a, b] for a in xs for b in ys]), what='**')
+        add('9 .+ %s' % L, nlit([9] + xs), what='.+')
+        add('%s +. 9' % L, nlit(xs + [9]), what='+.')
+        add('%s join ","' % L, nlit(','.join(str(x) for x in xs)), what='join')
+        add('flatten([%s, [], %s])' % (L, L), nlit(xs + xs), what='flatten')
+        if len(xs) <= 4:
+            add('list(permutations(%s))' % L, nlit([list(p) for p in it.permutations(xs)]), what='permutations')
+            for r in range(0, len(xs) + 2):
+                add('list(combinations(%s, %d))' % (L, r), nlit([list(c) for c in it.combinations(xs, r)]), what='combinations', r=r)
+            subs = [[]]
+            for x in reversed(xs):
+                subs = subs + [[x] + s for s in subs]
+            add('list(subsequences(%s))' % L, nlit(subs), what='subsequences')
+            if 1 <= len(xs) <= 3:
+                for r in range(0, 3):
+                    add('list(%s ^^ %d)' % (L, r), nlit([list(p) for p in it.product(xs, repeat=r)]), what='^^', r=r)
+    add('transpose([[1, 2, 3], [4, 5, 6]])', '[[1, 4], [2, 5], [3, 6]]', what='transpose')
+    add('transpose([])', '[]', what='transpose')
+    add('1 .. 2', '[1, 2]', what='..')
+    for n in range(0, 4):
+        add('7 .* %d' % n, nlit([7] * n), what='.*', n=n)
+    # strings: kind-preserving functions return strings, the others lists of one-character strings
+    for st in ['', 'a', 'abca', 'hello world']:
+        S = nlit(st)
+        ch = list(st)
+        add('%s filter (!= "a")' % S, nlit(''.join(c for c in ch if c != 'a')), what='filter keeps the string kind')
+        add('%s reject (!= "a")' % S, nlit(''.join(c for c in ch if c == 'a')), what='reject keeps the string kind')
+        add('reverse(%s)' % S, nlit(st[::-1]), what='reverse keeps the string kind')
+        add('sort(%s)' % S, nlit(''.join(sorted(ch))), what='sort keeps the string kind')
+        u = []
+        for c in ch:
+            if c not in u:
+                u.append(c)
+        add('unique(%s)' % S, nlit(''.join(u)), what='unique keeps the string kind')
+        add('%s take 2' % S, nlit(st[:2]), what='take on a string')
+        add('%s drop 2' % S, nlit(st[2:]), what='drop on a string')
+        add('%s take (!= "c")' % S, nlit(''.join(it.takewhile(lambda c: c != 'c', ch))), what='take (predicate) on a string')
+        add('%s map (\\c -> c $ c)' % S, nlit([c + c for c in ch]), what='map on a string gives a list')
+        add('prefixes(%s)' % S, nlit([st[:i] for i in range(len(st) + 1)]), what='prefixes of a string')
+        add('suffixes(%s)' % S, nlit([st[len(st) - i:] for i in range(len(st) + 1)]), what='suffixes of a string')
+        add('%s group 2' % S, nlit([st[i:i + 2] for i in range(0, len(st), 2)]), what='group n of a string')
+        add('%s window 2' % S, nlit([st[i:i + 2] for i in range(0, len(st) - 1)]), what='window of a string')
+        add('%s count "a"' % S, nlit(st.count('a')), what='count on a string')
+        add('words(%s)' % S, nlit(st.split()), what='words')
+    for st, sep in [('a,b,,c', ','), ('', ','), ('abc', ','), (',', ','), ('a--b', '--')]:
+        add('%s split %s' % (nlit(st), nlit(sep)), nlit(st.split(sep)), what='split')
+    for st in ['', 'a', 'a\\nb', 'a\\nb\\n', 'a\\n\\nb', '\\n']:
+        py = st.replace('\\n', '\n')
+        add('lines("%s")' % st, nlit(py.splitlines()), what='lines')
+    for st in ['  a b  c ', 'x', '   ']:
+        add('words(%s)' % nlit(st), nlit(st.split()), what='words')
+    # vectors, bytes, streams, dict keys
+    add('vector([3, 1, 2]) filter (>1)', 'vector([3, 2])', what='filter keeps the vector kind')
+    add('reverse(vector([3, 1, 2]))', 'vector([2, 1, 3])', what='reverse keeps the vector kind')
+    add('sort(vector([3, 1, 2]))', 'vector([1, 2, 3])', what='sort keeps the vector kind')
+    add('bytes([3, 1, 2]) filter (>1)', 'bytes([3, 2])', what='filter keeps the bytes kind')
+    add('reverse(bytes([3, 1, 2]))', 'bytes([2, 1, 3])', what='reverse keeps the bytes kind')
+    add('sort(bytes([3, 1, 2, 1]))', 'bytes([1, 1, 2, 3])', what='sort keeps the bytes kind')
+    add('unique(bytes([3, 1, 3, 1]))', 'bytes([3, 1])', what='unique keeps the bytes kind')
+    add('(1 til 6) filter (>2)', '[3, 4, 5]', what='filter of a stream is a list')
+    add('(1 til 6) map (*2)', '[2, 4, 6, 8, 10]', what='map of a stream')
+    add('list(reverse(1 til 6))', '[5, 4, 3, 2, 1]', what='reverse of a stream')
+    add('(1 til 6) take 2', '[1, 2]', what='take of a stream')
+    add('list((1 til 6) drop 2)', '[3, 4, 5]', what='drop of a stream')
+    add('(1 til 6) group 2', '[[1, 2], [3, 4], [5]]', what='group of a stream')
+    add('(1 til 6) window 4', '[[1, 2, 3, 4], [2, 3, 4, 5]]', what='window of a stream')
+    add('prefixes(1 til 3)', '[[], [1], [1, 2]]', what='prefixes of a stream')
+    add('sum(1 til 6)', '15', what='sum of a stream')
+    add('sort({3: 0, 1: 0, 2: 0} filter (>1))', '[2, 3]', what='filter of dict keys')
+    add('sort({3: 0, 1: 0, 2: 0} map (*2))', '[2, 4, 6]', what='map over dict keys')
+    # stability and mixed numeric kinds
+    add('[[2, "a"], [1, "b"], [2, "c"], [1, "d"]] sort_on first', '[[1, "b"], [1, "d"], [2, "a"], [2, "c"]]', what='sort_on is stable')
+    add('sort([[2, "a"], [1, "b"], [2, "c"], [1, "d"]] map first)', '[1, 1, 2, 2]', what='sort')
+    add('sort([2, 1.5, 1/2, 1])', '[1/2, 1, 1.5, 2]', what='sort of mixed numbers')
+    add('unique([1, 1.0, 2/2, 2])', '[1, 2]', what='unique uses value equality')
+    add('sort(["b", "a", "c", "a"])', '["a", "a", "b", "c"]', what='sort of strings')
+    add('max(["b", "a", "c"])', '"c"', what='max of strings')
+    return '', cases
+
+
+
 def _climb_reference(e0, toks, tighter, chain, run):
     """precedence climbing (the Python twin of specs/chain.rs)"""
     def climb(lhs, i, left):
@@ -799,7 +1006,7 @@ def suite_C14X():
 
 
 SUITES = {'C03': suite_C03, 'C06': suite_C06, 'C07': suite_C07, 'C08': suite_C08, 'C09': suite_C09, 'C10': suite_C10, 'C11': suite_C11,
-          'C12': suite_C12, 'C14': suite_C14, 'C14X': suite_C14X, 'C16': suite_C16}
+          'C12': suite_C12, 'C13': suite_C13, 'C14': suite_C14, 'C14X': suite_C14X, 'C16': suite_C16}
 # a crash is a C14 violation whichever suite produced it
 C14_SUITES = ['C14', 'C10', 'C11', 'C07', 'C08', 'C06', 'C14X']
 
